@@ -12,11 +12,14 @@
     §5  header echo, slot numbering, KSK policy (`createSkr_header`)
     §6  the form of a revoked key
     §7  non-vacuity examples
+    §8  order independence: the key set and the signature set do not depend on the order in which
+        Python visits the request's key set and the schema lists (nor on repeated names)
 -/
 import Kskm.Signer
 import KskmProofs.Lemmas.TokM
 import KskmProofs.Lemmas.SignerKeys
 import KskmProofs.Lemmas.SignerInv
+import KskmProofs.Lemmas.SignerPerm
 import KskmProofs.C14
 namespace Kskm.C02
 
@@ -517,5 +520,400 @@ example : PkFunctional [kCrev] ∧ PkFunctional ([kP, kC] ++ [kC, kP]) ∧ PkFun
 example : sameSet [8, 8] [8] = true ∧ sameSet [8, 13] [8] = false := by decide
 
 end Examples
+
+/-! ## §8 Order independence
+
+Python iterates `set[Key]` (the request bundle's keys), and the schema's `publish` / `sign` /
+`revoke` lists, in some order.  The property says the response is *exactly* what KSR and schema
+dictate, so nothing observable may depend on that order, nor on a name being listed twice.
+
+`SameElems l l'` (Lemmas/SignerPerm.lean): the two lists have the same elements — every
+permutation (`SameElems.of_perm`), and every re-listing with repetitions.
+
+* **Specification level, every token**: `slotPick`, hence `SlotKeys`, depends on its four list
+  arguments only as SETS, provided a public key text names one record within each list
+  (`PkFunctional`); any two lists meeting one `SlotKeys` specification are permutations of each other
+  (`SlotKeys.unique_up_to_perm`); so the fold `sign_bundles` runs yields the same key set
+  (`slotFold_order_free`).  `PkFunctional` cannot be dropped (`pkFunctional_needed`): with two
+  request keys that share a public key text but differ elsewhere, the survivor is whichever the set
+  iteration meets first.  For fetched KSK records `PkFunctional` holds exactly when two records with
+  one public key text also agree in label and algorithm (`fetched_pkFunctional_iff`); it fails for
+  two configured names that reach the same key material under different labels, or under one label
+  with different algorithm numbers.
+* **Run level**: the token is an oracle indexed by the operation number, and a permuted schema list
+  asks its questions at other indices, so for an arbitrary token (say, one with a fault planted at
+  operation 7) the outcome legitimately depends on the order.  On a token whose answers do not
+  depend on the operation index (`IndexFree`: a store-backed token, a healthy HSM)
+  `signBundle_order_free`: the permuted slot succeeds as well, with a permutation of the keys and a
+  permutation of the signatures (identical records), and the same header.
+* **Signature identifiers, every token**: `signature_ids_order_free`. -/
+
+theorem firstWithPk_order_free {l l' : List Key} (h : SameElems l l') (hf : PkFunctional l) (p : String) :
+    firstWithPk l p = firstWithPk l' p := lookupPk_same h hf p
+
+theorem lastWithPk_order_free {l l' : List Key} (h : SameElems l l') (hf : PkFunctional l) (p : String) :
+    lastWithPk l p = lastWithPk l' p :=
+  lookupPk_same h.reverse
+    (fun a ha b hb e => hf a (List.mem_reverse.mp ha) b (List.mem_reverse.mp hb) e) p
+
+/-- **The record chosen for a public key text depends on the four lists only as sets.** -/
+theorem slotPick_order_free {P P' R R' S S' Z Z' : List Key}
+    (hP : SameElems P P') (hR : SameElems R R') (hS : SameElems S S') (hZ : SameElems Z Z')
+    (fP : PkFunctional P) (fR : PkFunctional R) (fS : PkFunctional S) (fZ : PkFunctional Z) (p : String) :
+    slotPick P R S Z p = slotPick P' R' S' Z' p := by
+  unfold slotPick
+  rw [lastWithPk_order_free hR fR, firstWithPk_order_free hP fP, firstWithPk_order_free hS fS,
+    firstWithPk_order_free hZ fZ]
+
+/-- the specification does not look at the order of the OUTPUT either -/
+theorem SlotKeys.of_perm {ttl : Int} {P R S Z out out' : List Key} (h : SlotKeys ttl P R S Z out)
+    (hp : out.Perm out') : SlotKeys ttl P R S Z out' :=
+  ⟨fun x => by rw [← hp.mem_iff]; exact h.mem x, fun x hx => h.ttl x (hp.mem_iff.mpr hx),
+    (hp.pairwise_iff (fun hne e => hne e.symm)).mp h.unique⟩
+
+/-- **`SlotKeys_perm`.** The specification of a slot's key set is invariant under reordering (and
+    repetition) within each of its four input lists, given `PkFunctional` of each. -/
+theorem SlotKeys_order_free {ttl : Int} {P P' R R' S S' Z Z' out : List Key}
+    (hP : SameElems P P') (hR : SameElems R R') (hS : SameElems S S') (hZ : SameElems Z Z')
+    (fP : PkFunctional P) (fR : PkFunctional R) (fS : PkFunctional S) (fZ : PkFunctional Z) :
+    SlotKeys ttl P R S Z out ↔ SlotKeys ttl P' R' S' Z' out := by
+  have hpick := slotPick_order_free hP hR hS hZ fP fR fS fZ
+  constructor
+  · intro h
+    exact ⟨fun x => by rw [h.mem x]; simp only [hpick], h.ttl, h.unique⟩
+  · intro h
+    exact ⟨fun x => by rw [h.mem x]; simp only [hpick], h.ttl, h.unique⟩
+
+/-- the same in `List.Perm` vocabulary, for all five lists at once -/
+theorem SlotKeys_perm {ttl : Int} {P P' R R' S S' Z Z' out out' : List Key}
+    (hP : P.Perm P') (hR : R.Perm R') (hS : S.Perm S') (hZ : Z.Perm Z') (ho : out.Perm out')
+    (fP : PkFunctional P) (fR : PkFunctional R) (fS : PkFunctional S) (fZ : PkFunctional Z)
+    (h : SlotKeys ttl P R S Z out) : SlotKeys ttl P' R' S' Z' out' :=
+  ((SlotKeys_order_free (SameElems.of_perm hP) (SameElems.of_perm hR) (SameElems.of_perm hS)
+    (SameElems.of_perm hZ) fP fR fS fZ).mp h).of_perm ho
+
+/-- **The specification determines the key set up to order**: two lists meeting `SlotKeys` of the
+    same inputs are permutations of each other. -/
+theorem SlotKeys.unique_up_to_perm {ttl : Int} {P R S Z out out' : List Key}
+    (h : SlotKeys ttl P R S Z out) (h' : SlotKeys ttl P R S Z out') : out.Perm out' :=
+  SameElems.perm_of_nodup (fun x => by rw [h.mem x, h'.mem x]) (uniquePk_nodup h.unique)
+    (uniquePk_nodup h'.unique)
+
+/-- **The key set `sign_bundles` assembles does not depend on the order (or repetition) within the
+    fetched publish / revoke / sign records and the request keys.** -/
+theorem slotFold_order_free (ttl : Int) {P P' R R' S S' Z Z' : List Key}
+    (hP : SameElems P P') (hR : SameElems R R') (hS : SameElems S S') (hZ : SameElems Z Z')
+    (fP : PkFunctional P) (fR : PkFunctional R) (fS : PkFunctional S) (fZ : PkFunctional Z) :
+    (slotFold ttl P R S Z).Perm (slotFold ttl P' R' S' Z') :=
+  ((SlotKeys_order_free hP hR hS hZ fP fR fS fZ).mp (slotFold_spec ttl P R S Z)).unique_up_to_perm
+    (slotFold_spec ttl P' R' S' Z')
+
+/-- **`PkFunctional` is needed.** Two request keys with one public key text but different flags:
+    the two iteration orders of the request's key SET give different responses. -/
+theorem pkFunctional_needed :
+    ∃ Z Z' : List Key, Z.Perm Z' ∧ ¬ PkFunctional Z ∧
+      ¬ (slotFold 172800 [] [] [] Z).Perm (slotFold 172800 [] [] [] Z') := by
+  refine ⟨[⟨"a", 1, 172800, 256, 3, 8, "AAAA"⟩, ⟨"b", 2, 172800, 257, 3, 8, "AAAA"⟩],
+    [⟨"b", 2, 172800, 257, 3, 8, "AAAA"⟩, ⟨"a", 1, 172800, 256, 3, 8, "AAAA"⟩],
+    List.Perm.swap _ _ _, ?_, ?_⟩
+  · intro h
+    have := h ⟨"a", 1, 172800, 256, 3, 8, "AAAA"⟩ (by simp) ⟨"b", 2, 172800, 257, 3, 8, "AAAA"⟩ (by simp) rfl
+    simp at this
+  · have e1 : slotFold 172800 [] [] [] [⟨"a", 1, 172800, 256, 3, 8, "AAAA"⟩, ⟨"b", 2, 172800, 257, 3, 8, "AAAA"⟩]
+        = [⟨"a", 1, 172800, 256, 3, 8, "AAAA"⟩] := by decide
+    have e2 : slotFold 172800 [] [] [] [⟨"b", 2, 172800, 257, 3, 8, "AAAA"⟩, ⟨"a", 1, 172800, 256, 3, 8, "AAAA"⟩]
+        = [⟨"b", 2, 172800, 257, 3, 8, "AAAA"⟩] := by decide
+    rw [e1, e2]
+    intro h
+    have := List.singleton_perm.mp h
+    simp at this
+
+/-! ### `PkFunctional` of fetched KSK records -/
+
+theorem key_ext {a b : Key} (h1 : a.keyIdentifier = b.keyIdentifier) (h2 : a.keyTag = b.keyTag)
+    (h3 : a.ttl = b.ttl) (h4 : a.flags = b.flags) (h5 : a.protocol = b.protocol)
+    (h6 : a.algorithm = b.algorithm) (h7 : a.publicKey = b.publicKey) : a = b := by
+  cases a; cases b; simp_all
+
+/-- a KSK record is determined by label, algorithm and public key text (flags, protocol, TTL are
+    fixed, the tag is computed from the RDATA) -/
+theorem kskRecord_determined {cfg : SignerConfig} {n₁ n₂ pk : String} {a b : Key}
+    (ha : KskRecord cfg n₁ pk a) (hb : KskRecord cfg n₂ pk b)
+    (hid : a.keyIdentifier = b.keyIdentifier) (halg : a.algorithm = b.algorithm) : a = b := by
+  have hrd : keyToRdata a = keyToRdata b := by
+    unfold keyToRdata
+    rw [ha.flags, hb.flags, ha.protocol, hb.protocol, halg, ha.publicKey, hb.publicKey]
+  obtain ⟨ra, hra, hta⟩ := ha.tag
+  obtain ⟨rb, hrb, htb⟩ := hb.tag
+  rw [hrd, hrb] at hra
+  cases hra
+  exact key_ext hid (by rw [hta, htb]) (by rw [ha.ttl, hb.ttl]) (by rw [ha.flags, hb.flags])
+    (by rw [ha.protocol, hb.protocol]) halg (by rw [ha.publicKey, hb.publicKey])
+
+/-- **When is a public key text one record among the fetched KSK records?**  Exactly when two
+    fetched records with one public key text also carry one label and one algorithm number.  So
+    `PkFunctional` holds unless two names of the list reach the same key material under different
+    labels, or under one label configured with different algorithms — then the record published is
+    whichever name the schema list has first, and `PkFunctional` states precisely that this does not
+    happen. -/
+theorem fetched_pkFunctional_iff {cfg : SignerConfig} {names : List String} {cks : List CompositeKey}
+    (h : FetchedFor cfg names cks) :
+    PkFunctional (cks.map (·.dns)) ↔
+      ∀ a ∈ cks, ∀ b ∈ cks, a.dns.publicKey = b.dns.publicKey →
+        a.dns.keyIdentifier = b.dns.keyIdentifier ∧ a.dns.algorithm = b.dns.algorithm := by
+  constructor
+  · intro hf a ha b hb e
+    have := hf a.dns (List.mem_map.mpr ⟨a, ha, rfl⟩) b.dns (List.mem_map.mpr ⟨b, hb, rfl⟩) e
+    rw [this]; exact ⟨rfl, rfl⟩
+  · intro hc x hx y hy e
+    obtain ⟨a, ha, rfl⟩ := List.mem_map.mp hx
+    obtain ⟨b, hb, rfl⟩ := List.mem_map.mp hy
+    obtain ⟨n₁, _, pk₁, _, r₁⟩ := h.2.1 a ha
+    obtain ⟨n₂, _, pk₂, _, r₂⟩ := h.2.1 b hb
+    have hpk : pk₁ = pk₂ := by rw [← r₁.publicKey, ← r₂.publicKey]; exact e
+    subst hpk
+    exact kskRecord_determined r₁ r₂ (hc a ha b hb e).1 (hc a ha b hb e).2
+
+/-- in configuration terms: names whose configured label and algorithm agree yield one record per
+    public key text -/
+theorem fetched_pkFunctional_of_config {cfg : SignerConfig} {names : List String} {cks : List CompositeKey}
+    (h : FetchedFor cfg names cks)
+    (hcfg : ∀ n₁ ∈ names, ∀ n₂ ∈ names, ∀ k₁ k₂, cfg.kskKeys.lookup n₁ = some k₁ →
+      cfg.kskKeys.lookup n₂ = some k₂ → k₁.label = k₂.label ∧ k₁.algorithm = k₂.algorithm) :
+    PkFunctional (cks.map (·.dns)) := by
+  rw [fetched_pkFunctional_iff h]
+  intro a ha b hb _
+  obtain ⟨n₁, hn₁, pk₁, _, r₁⟩ := h.2.1 a ha
+  obtain ⟨n₂, hn₂, pk₂, _, r₂⟩ := h.2.1 b hb
+  obtain ⟨k₁, hl₁, hi₁, ha₁⟩ := r₁.configured
+  obtain ⟨k₂, hl₂, hi₂, ha₂⟩ := r₂.configured
+  obtain ⟨e1, e2⟩ := hcfg n₁ hn₁ n₂ hn₂ k₁ k₂ hl₁ hl₂
+  exact ⟨by rw [hi₁, hi₂, e1], by rw [ha₁, ha₂, e2]⟩
+
+/-- revoking keeps `PkFunctional`: the revoked form is a function of the record and keeps the
+    public key text -/
+theorem revoked_pkFunctional {l : List Key} {revoked : List Key} (hf : PkFunctional l)
+    (hr : l.mapM (fun k => k.asRevoked) = .ok revoked) : PkFunctional revoked := by
+  obtain ⟨hm, _, _⟩ := mapM_ok_mem _ _ _ hr
+  intro a ha b hb e
+  obtain ⟨x, hx, hxa⟩ := (hm a).mp ha
+  obtain ⟨y, hy, hyb⟩ := (hm b).mp hb
+  have hpa := (C14.revoke_sets_only_bit_and_retags x a hxa).choose_spec.2.2.2.2.2.2.1
+  have hpb := (C14.revoke_sets_only_bit_and_retags y b hyb).choose_spec.2.2.2.2.2.2.1
+  have : x = y := hf x hx y hy (by rw [← hpa, ← hpb]; exact e)
+  subst this
+  rw [hxa] at hyb
+  exact Except.ok.inj hyb
+
+/-! ### the run on an index-free token -/
+
+theorem loadPkcs11Key_bundle_congr (mods : List P11Module) (ksk : KskKey) (pol : KskPolicy) (b b' : Bundle)
+    (isPublic : Bool) (h1 : b'.inception = b.inception) (h2 : b'.expiration = b.expiration) :
+    loadPkcs11Key mods ksk pol b' isPublic = loadPkcs11Key mods ksk pol b isPublic := by
+  unfold loadPkcs11Key
+  rw [h1, h2]
+
+/-- `_fetch_keys` reads the configured keys, the KSK policy and the bundle's two times, nothing else -/
+theorem fetchKeys_congr (ext : Externals) (mods : List P11Module) (cfg cfg' : SignerConfig) (b b' : Bundle)
+    (isPublic : Bool) (hk : cfg'.kskKeys = cfg.kskKeys) (hp : cfg'.kskPolicy = cfg.kskPolicy)
+    (h1 : b'.inception = b.inception) (h2 : b'.expiration = b.expiration) (names : List String) :
+    fetchKeys ext mods cfg' b' isPublic names = fetchKeys ext mods cfg b isPublic names := by
+  induction names with
+  | nil => simp [fetchKeys]
+  | cons name rest ih =>
+    rw [fetchKeys, fetchKeys, hk, hp]
+    simp only [loadPkcs11Key_bundle_congr mods _ _ b b' isPublic h1 h2, ih]
+
+theorem signKeys_bundle_congr (ext : Externals) (b b' : Bundle) (keys : List Key) (sk : CompositeKey)
+    (pol : KskPolicy) (h1 : b'.inception = b.inception) (h2 : b'.expiration = b.expiration) :
+    signKeys ext b' keys sk pol = signKeys ext b keys sk pol := by
+  unfold signKeys
+  rw [h1, h2]
+
+/-- **C02, order independence of one slot on an index-free token.**  `tok` answers every operation
+    the same at whatever index.  The slot `slot` was signed successfully (`h`) under configuration
+    `cfg` for request bundle `bundle`; `pub`, `rev`, `signing` are what the three fetches returned.
+    `cfg'` differs from `cfg` in the schema only, its action for the slot lists the same names under
+    `publish`, `revoke`, `sign` — in any order, any name any number of times; `bundle'` is `bundle`
+    with its key set in any order.  Provided a public key text names one record within each of the
+    four lists and an identifier names one signing key, then — from ANY token state `s'` — the slot
+    is signed successfully again, and the response bundle has a permutation of the same keys, a
+    permutation of the same signatures (identical records: same octets signed, same signature data),
+    and the same id / inception / expiration. -/
+theorem signBundle_order_free (ext : Externals) (mods : List P11Module) (cfg cfg' : SignerConfig)
+    (slot : Nat) (bundle bundle' rb : Bundle) (tok : Token) (s s1 s2 s3 s4 s' : TokState)
+    (act act' : SchemaAction) (pub rev signing : List CompositeKey)
+    (ht : IndexFree tok)
+    (hk : cfg'.kskKeys = cfg.kskKeys) (hp : cfg'.kskPolicy = cfg.kskPolicy)
+    (hrp : cfg'.responsePolicy = cfg.responsePolicy)
+    (hact : cfg.actions.lookup slot = some act) (hact' : cfg'.actions.lookup slot = some act')
+    (hlp : SameElems act.publish act'.publish) (hlr : SameElems act.revoke act'.revoke)
+    (hls : SameElems act.sign act'.sign)
+    (hid : bundle'.id = bundle.id) (hinc : bundle'.inception = bundle.inception)
+    (hexp : bundle'.expiration = bundle.expiration) (hz : SameElems bundle.keys bundle'.keys)
+    (hpub : fetchKeys ext mods cfg bundle true act.publish tok s = (.ok pub, s1))
+    (hrev : fetchKeys ext mods cfg bundle true act.revoke tok s1 = (.ok rev, s2))
+    (hsign : fetchKeys ext mods cfg bundle false act.sign tok s2 = (.ok signing, s3))
+    (h : signBundle ext mods cfg slot bundle tok s = (.ok rb, s4))
+    (fP : PkFunctional (pub.map (·.dns))) (fR : PkFunctional (rev.map (·.dns)))
+    (fS : PkFunctional (signing.map (·.dns))) (fZ : PkFunctional bundle.keys) (fI : IdFun signing) :
+    ∃ rb' s'', signBundle ext mods cfg' slot bundle' tok s' = (.ok rb', s'') ∧
+      rb'.keys.Perm rb.keys ∧ rb'.signatures.Perm rb.signatures ∧
+      rb'.id = rb.id ∧ rb'.inception = rb.inception ∧ rb'.expiration = rb.expiration := by
+  -- the original run, step by step
+  obtain ⟨act0, pub0, rev0, revoked, signing0, t1, t2, t3, hact0, hpub0, hrev0, hrevoked, hsign0, hkeys,
+    hsigs, hfin⟩ := signBundle_ok h
+  rw [hact] at hact0; cases hact0
+  rw [hpub] at hpub0; cases hpub0
+  rw [hrev] at hrev0; cases hrev0
+  rw [hsign] at hsign0; cases hsign0
+  -- the three fetches of the reordered slot
+  obtain ⟨pub', u1, hpub', sP⟩ := fetchKeys_same ext mods cfg bundle true ht hlp hpub s'
+  obtain ⟨rev', u2, hrev', sR⟩ := fetchKeys_same ext mods cfg bundle true ht hlr hrev u1
+  obtain ⟨signing', u3, hsign', sS⟩ := fetchKeys_same ext mods cfg bundle false ht hls hsign u2
+  rw [← fetchKeys_congr ext mods cfg cfg' bundle bundle' _ hk hp hinc hexp] at hpub' hrev' hsign'
+  -- revoked forms
+  have hrevoked0 : (rev.map (·.dns)).mapM (fun k => k.asRevoked) = .ok revoked := by
+    rw [List.mapM_map]; exact hrevoked
+  obtain ⟨revoked', hrevoked'0, sRv⟩ := mapM_same (fun k : Key => k.asRevoked) (sR.map (·.dns)) hrevoked0
+  have hrevoked' : rev'.mapM (fun ck => ck.dns.asRevoked) = .ok revoked' := by
+    rw [List.mapM_map] at hrevoked'0; exact hrevoked'0
+  -- the key sets
+  have hperm : (slotFold cfg.kskPolicy.ttl (pub.map (·.dns)) revoked (signing.map (·.dns)) bundle.keys).Perm
+      (slotFold cfg'.kskPolicy.ttl (pub'.map (·.dns)) revoked' (signing'.map (·.dns)) bundle'.keys) := by
+    rw [hp]
+    exact slotFold_order_free _ (sP.map _) sRv (sS.map _) hz fP (revoked_pkFunctional fR hrevoked0) fS fZ
+  -- the signing loop
+  have hpure := signAll_indexFree ext bundle rb.keys cfg.kskPolicy ht signing [] s3
+  rw [hsigs] at hpure
+  have hidf : ∀ sk σ, signedBy ext bundle rb.keys cfg.kskPolicy tok sk = .ok σ →
+      σ.keyIdentifier = sk.dns.keyIdentifier := by
+    intro sk σ hσ
+    have : signKeys ext bundle rb.keys sk cfg.kskPolicy tok {} =
+        (.ok σ, (signKeys ext bundle rb.keys sk cfg.kskPolicy tok {}).2) := Prod.ext hσ rfl
+    exact (signKeys_ok_id this).1
+  obtain ⟨sigs', hpure', sSig⟩ := signAllPure_same _
+    (signedBy ext bundle'
+      (slotFold cfg'.kskPolicy.ttl (pub'.map (·.dns)) revoked' (signing'.map (·.dns)) bundle'.keys)
+      cfg'.kskPolicy tok) sS fI hidf (by
+      intro sk _ σ hσ
+      have h0 : signKeys ext bundle rb.keys sk cfg.kskPolicy tok {} =
+          (.ok σ, (signKeys ext bundle rb.keys sk cfg.kskPolicy tok {}).2) := Prod.ext hσ rfl
+      rw [hkeys] at h0
+      have h1 := signKeys_perm hperm h0
+      unfold signedBy
+      rw [hp] at h1
+      rw [signKeys_bundle_congr ext bundle bundle' _ sk _ hinc hexp, hp, h1]) hpure.symm
+  have hsigs' : signAll ext bundle'
+      (slotFold cfg'.kskPolicy.ttl (pub'.map (·.dns)) revoked' (signing'.map (·.dns)) bundle'.keys)
+      cfg'.kskPolicy signing' [] tok u3 = (.ok sigs', (signAll ext bundle'
+      (slotFold cfg'.kskPolicy.ttl (pub'.map (·.dns)) revoked' (signing'.map (·.dns)) bundle'.keys)
+      cfg'.kskPolicy signing' [] tok u3).2) := by
+    refine Prod.ext ?_ rfl
+    rw [signAll_indexFree ext bundle' _ cfg'.kskPolicy ht signing' [] u3]
+    exact hpure'
+  -- the tail
+  rw [signBundle_run hact' hpub' hrev' hrevoked' hsign' hsigs']
+  have hfin' := finishBundle_same (cfg' := cfg') hrp hid hinc hexp hz (hkeys ▸ hperm) sSig hfin
+  obtain ⟨_, hrb, _⟩ := finishBundle_ok hfin
+  have hd : rb.signatures.Nodup := by
+    obtain ⟨new, e, _, _, hdist, _⟩ := signAll_ok hsigs
+    have := hdist List.Pairwise.nil
+    rw [List.nodup_iff_pairwise_ne]
+    exact this.imp (fun hne e => hne (by rw [e]))
+  have hd' : sigs'.Nodup := by
+    obtain ⟨new, e, _, _, hdist, _⟩ := signAll_ok hsigs'
+    have := hdist List.Pairwise.nil
+    rw [List.nodup_iff_pairwise_ne]
+    exact this.imp (fun hne e => hne (by rw [e]))
+  refine ⟨_, _, by rw [hfin'], ?_, (sSig.symm.perm_of_nodup hd' hd), ?_, ?_, ?_⟩
+  · rw [hkeys]; exact hperm.symm
+  · rw [hrb]
+  · rw [hrb]
+  · rw [hrb]
+
+/-- **Signature identifiers, every token.** Two successful runs of a slot — any two tokens, any
+    states, any two configurations with the same configured keys — whose actions list the same names
+    under `sign` (any order, any repetition) return signatures with the same set of key identifiers. -/
+theorem signature_ids_order_free (ext : Externals) (mods : List P11Module) (cfg cfg' : SignerConfig)
+    (slot : Nat) (bundle bundle' rb rb' : Bundle) (tok tok' : Token) (s s1 s' s1' : TokState)
+    (act act' : SchemaAction) (hk : cfg'.kskKeys = cfg.kskKeys)
+    (hact : cfg.actions.lookup slot = some act) (hact' : cfg'.actions.lookup slot = some act')
+    (hls : SameElems act.sign act'.sign)
+    (h : signBundle ext mods cfg slot bundle tok s = (.ok rb, s1))
+    (h' : signBundle ext mods cfg' slot bundle' tok' s' = (.ok rb', s1')) :
+    ∀ id, (∃ σ ∈ rb.signatures, σ.keyIdentifier = id) ↔ (∃ σ ∈ rb'.signatures, σ.keyIdentifier = id) := by
+  obtain ⟨a, _, ha, _, _, h2, _⟩ := signBundle_signatures_spec ext mods cfg slot bundle rb tok s s1 h
+  obtain ⟨a', _, ha', _, _, h2', _⟩ := signBundle_signatures_spec ext mods cfg' slot bundle' rb' tok' s' s1' h'
+  rw [hact] at ha; cases ha
+  rw [hact'] at ha'; cases ha'
+  intro id
+  rw [h2 id, h2' id, hk]
+  constructor
+  · rintro ⟨n, hn, r⟩; exact ⟨n, (hls n).mp hn, r⟩
+  · rintro ⟨n, hn, r⟩; exact ⟨n, (hls n).mpr hn, r⟩
+
+/-! ### Non-vacuity of `signBundle_order_free` -/
+
+section OrderExample
+
+/-- an index-free token with two RSA key pairs (labels "kskA" / "kskB", handles 5 / 6, moduli `80 01` /
+    `80 03`, e = 65537) that signs everything with `[1, 2, 3]` -/
+private def ofTok : Token := fun _ op =>
+  match op with
+  | .findObjects _ _ [("LABEL", .str "kskA"), _] => .handles [5]
+  | .findObjects _ _ [("LABEL", .str "kskB"), _] => .handles [6]
+  | .getAttr _ _ _ ["KEY_TYPE"] => .attrs [.num 0]
+  | .getAttr _ _ 5 ["MODULUS"] => .attrs [.bytes [0x80, 1]]
+  | .getAttr _ _ 6 ["MODULUS"] => .attrs [.bytes [0x80, 3]]
+  | .getAttr _ _ _ ["PUBLIC_EXPONENT"] => .attrs [.bytes [1, 0, 1]]
+  | .sign .. => .sig [1, 2, 3]
+  | _ => .other
+private def ofExt : Externals :=
+  { hash := fun _ d => some d, verify := fun _ _ _ sg => if sg = [1, 2, 3] then .valid else .invalid }
+private def ofKsk (l : String) : KskKey :=
+  { label := l, algorithm := 8, validFrom := 0, rsaSize := some 16, rsaExponent := some 65537,
+    hashUsingHsm := some true }
+private def ofCfg (acts : List (Nat × SchemaAction)) : SignerConfig :=
+  { kskKeys := [("a", ofKsk "kskA"), ("b", ofKsk "kskB")], actions := acts }
+private def ofMods : List P11Module := [{ label := "hsm", path := "m", sessions := [0] }]
+private def oz1 : Key := ⟨"zsk1", 2, 3600, 256, 3, 8, "AwEAAg=="⟩
+private def oz2 : Key := ⟨"zsk2", 3, 3600, 256, 3, 8, "AwEAAw=="⟩
+private def ofBundle (ks : List Key) : Bundle := ⟨"b1", 1700000000000000, 1701000000000000, ks, [], none⟩
+private def ofAct : SchemaAction := { publish := ["a", "b"], sign := ["a", "b"], revoke := ["b"] }
+private def ofAct' : SchemaAction := { publish := ["b", "a", "b"], sign := ["b", "a"], revoke := ["b", "b"] }
+
+private def os1 : TokState :=
+  (fetchKeys ofExt ofMods (ofCfg [(1, ofAct)]) (ofBundle [oz1, oz2]) true ofAct.publish ofTok {}).2
+private def os2 : TokState :=
+  (fetchKeys ofExt ofMods (ofCfg [(1, ofAct)]) (ofBundle [oz1, oz2]) true ofAct.revoke ofTok os1).2
+
+/-- the hypotheses of `signBundle_order_free` are satisfiable, with a non-trivial reordering: names
+    swapped and repeated in all three schema lists, request keys swapped, `revoke` non-empty -/
+example : ∃ rb rb' s4 s'',
+    signBundle ofExt ofMods (ofCfg [(1, ofAct)]) 1 (ofBundle [oz1, oz2]) ofTok {} = (.ok rb, s4) ∧
+    signBundle ofExt ofMods (ofCfg [(1, ofAct')]) 1 (ofBundle [oz2, oz1]) ofTok {} = (.ok rb', s'') ∧
+    rb'.keys.Perm rb.keys ∧ rb'.signatures.Perm rb.signatures ∧ rb.keys.length = 4 ∧
+    rb.signatures.length = 2 := by
+  have ht : IndexFree ofTok := fun _ _ _ => rfl
+  have hpub : fetchKeys ofExt ofMods (ofCfg [(1, ofAct)]) (ofBundle [oz1, oz2]) true ofAct.publish ofTok {}
+      = (.ok _, os1) := Prod.ext (eq_okOr [] (by decide +kernel)) rfl
+  have hrev : fetchKeys ofExt ofMods (ofCfg [(1, ofAct)]) (ofBundle [oz1, oz2]) true ofAct.revoke ofTok os1
+      = (.ok _, os2) := Prod.ext (eq_okOr [] (by decide +kernel)) rfl
+  have hsign : fetchKeys ofExt ofMods (ofCfg [(1, ofAct)]) (ofBundle [oz1, oz2]) false ofAct.sign ofTok os2
+      = (.ok _, _) := Prod.ext (eq_okOr [] (by decide +kernel)) rfl
+  have h : signBundle ofExt ofMods (ofCfg [(1, ofAct)]) 1 (ofBundle [oz1, oz2]) ofTok {}
+      = (.ok _, _) := Prod.ext (eq_okOr default (by decide +kernel)) rfl
+  obtain ⟨rb', s'', h', hk, hs, _⟩ := signBundle_order_free ofExt ofMods (ofCfg [(1, ofAct)])
+    (ofCfg [(1, ofAct')]) 1 (ofBundle [oz1, oz2]) (ofBundle [oz2, oz1]) _ ofTok {} _ _ _ _ {} ofAct ofAct'
+    _ _ _ ht rfl rfl rfl rfl rfl (SameElems.of_subsets (by decide) (by decide))
+    (SameElems.of_subsets (by decide) (by decide)) (SameElems.of_subsets (by decide) (by decide))
+    rfl rfl rfl (SameElems.of_subsets (by decide) (by decide))
+    hpub hrev hsign h (by unfold PkFunctional; decide +kernel) (by unfold PkFunctional; decide +kernel)
+    (by unfold PkFunctional; decide +kernel) (by unfold PkFunctional; decide +kernel)
+    (by unfold IdFun; decide +kernel)
+  exact ⟨_, rb', _, s'', h, h', hk, hs, by decide +kernel, by decide +kernel⟩
+
+end OrderExample
 
 end Kskm.C02
